@@ -203,6 +203,14 @@ func runCommentCheck(path string) {
 			for _, t := range c.Touched {
 				isTouched[t] = true
 			}
+			// comments of a declaration the patch rewrote may likewise end up next to a neighbour
+			for i := range a {
+				if i < len(b) && (a[i].canon != b[i].canon || isTouched[i]) {
+					for _, t := range a[i].comments {
+						importComments[t]++
+					}
+				}
+			}
 			for i := range a {
 				if a[i].canon != b[i].canon || isTouched[i] {
 					o.Touched++
